@@ -380,6 +380,15 @@ func c15Body(r *Run) {
 	mkSub := func(topic string) *ScriptedSubscriber {
 		s := NewScriptedSubscriber(r, "sub-"+topic)
 		s.MaxRedeliver = 1 + t.Int(2)
+		if t.Chance(1, 3) {
+			// a Pub/Sub whose deliveries arrive with a context that already names some other message as "the original
+			// message" (one that derives delivery contexts from the publisher's context, an in-process relay, ...)
+			other := message.NewMessage("somebody-elses-original", nil)
+			s.CtxDecor = func(ctx context.Context, m *message.Message, cancel context.CancelFunc) context.Context {
+				return cqrs.CtxWithOriginalMessage(ctx, other)
+			}
+			r.Probe("deliveries-arrive-with-a-stale-original-message")
+		}
 		for _, sm := range sent {
 			if sm.topic == topic {
 				s.Script[topic] = append(s.Script[topic], ScriptMsg{UUID: sm.msg.UUID, Payload: string(sm.msg.Payload), Metadata: copyMeta(sm.msg.Metadata)})
